@@ -6,6 +6,7 @@
    Every proof is `exact <lemma>` or an instance of the central frame lemma. *)
 From TenpyV Require Import Base.Prelude Model.Store Proofs.StoreP Proofs.StoreP2 Model.StoreMps Proofs.StoreMpsP.
 From TenpyV Require Import Model.StoreShare Proofs.StoreShareP.
+From TenpyV Require Import Model.StoreMpsObj Proofs.StoreMpsObjP.
 Open Scope nat_scope.
 
 (* the central statement: whatever operation runs, a live tensor that is not in the (small, explicit)
@@ -329,6 +330,48 @@ Example T03_example_shares :
   wf h2 /\ shares_buffer h2 0 1 = true /\ shares_buffer h3 0 2 = false /\ shares_buffer h3 1 2 = false.
 Proof. exact example_shares. Qed.
 
+(* ---- MPS OBJECTS and the list objects bound to their _B attribute (Model/StoreMpsObj.v).  tenpy makes shallow copies of MPS
+   objects (copy.copy) and runs in-place methods on them (MPS._gauge_compatible_vL_vR, used by overlap / MPSEnvironment / add),
+   and pure queries collect the stored tensors in lists (get_total_charge).  One container operation - shallow copy of the
+   object, m._B = m._B[:], m._B[i] = t, in-place list extension, list concatenation - leaves what an MPS object x reads as x._B
+   unchanged unless it WRITES a list through an object whose _B is x._B; all heaps, all objects, well-formedness preserved. *)
+Theorem T03_mpsobj_frame : forall h o x, owf h -> cop_ok h o -> x < length (mobj h) ->
+  match cwriter o with Some m => shares_list h x m = false | None => True end ->
+  B_of (cexec h o) x = B_of h x /\ owf (cexec h o).
+Proof. intros h o x Hwf Hok Hx Hsh. split; [apply cframe; assumption|apply cwf_preserved; assumption]. Qed.
+
+(* every finite history of container operations none of which writes through an alias of x._B *)
+Theorem T03_mpsobj_history : forall os h x, owf h -> x < length (mobj h) -> cadm h x os -> B_of (crun h os) x = B_of h x.
+Proof. exact chistory_frame. Qed.
+
+(* MPS._gauge_compatible_vL_vR(other) with need_gauge: shallow copy, own list, then ANY sequence of item assignments by
+   gauge_total_charge on the copy: every MPS object that existed before the call (in particular `other`) reads the same list *)
+Theorem T03_mpsobj_gauge_compatible : forall h other writes x, owf h -> other < length (mobj h) -> x < length (mobj h) ->
+  B_of (crun h (gauge_prog other (length (mobj h)) writes)) x = B_of h x.
+Proof. exact gauge_compatible_frame. Qed.
+
+(* a query that builds `m._B + ts` (get_total_charge with segment boundaries) changes the list of no MPS object *)
+Theorem T03_mpsobj_query_new_list : forall h m ts x, owf h -> m < length (mobj h) -> x < length (mobj h) ->
+  B_of (cexec h (CConcat m ts)) x = B_of h x.
+Proof. exact query_concat_frame. Qed.
+
+(* the hypotheses matter: without `other._B = other._B[:]` the re-gauged tensor is read through `other`; `tensors += ts` on an
+   alias of m._B extends m._B; and the harness checkers accept the faithful observations and reject the leaking ones *)
+Example T03_example_gauge_needs_own_list :
+  let h := mkOH [[0; 1; 2]] [0] in
+  B_of (crun h (gauge_prog_shared 0 1 [(2, 7)])) 0 = [0; 1; 7] /\ B_of (crun h (gauge_prog 0 1 [(2, 7)])) 0 = [0; 1; 2]
+  /\ B_of (crun h (gauge_prog 0 1 [(2, 7)])) 1 = [0; 1; 7].
+Proof. exact gauge_without_own_list_leaks. Qed.
+Example T03_example_query_extend_leaks :
+  let h := mkOH [[0; 1; 2]] [0] in B_of (cexec h (CExtend 0 [8; 9])) 0 = [0; 1; 2; 8; 9] /\ B_of (cexec h (CConcat 0 [8; 9])) 0 = [0; 1; 2].
+Proof. exact query_extend_leaks. Qed.
+Example T03_example_mpsobj_checkers :
+  check_gauge_compatible (true, 4, [3], (false, false, true)) = true /\
+  check_gauge_compatible (true, 4, [3], (false, true, false)) = false /\
+  check_gauge_compatible (false, 4, [], (true, true, true)) = true /\
+  check_query_list (4, true, 4) = true /\ check_query_list (4, true, 6) = false.
+Proof. exact checkers_examples. Qed.
+
 Print Assumptions T03_frame_all_ops.
 Print Assumptions T03_frame_tensordot.
 Print Assumptions T03_frame_add.
@@ -354,3 +397,7 @@ Print Assumptions T03_mps_sep_preserved.
 Print Assumptions T03_mps_history.
 Print Assumptions T03_fresh_result_unshared.
 Print Assumptions T03_rebind_unshares.
+Print Assumptions T03_mpsobj_frame.
+Print Assumptions T03_mpsobj_history.
+Print Assumptions T03_mpsobj_gauge_compatible.
+Print Assumptions T03_mpsobj_query_new_list.
